@@ -735,14 +735,32 @@ class FieldValueMultiple(FieldValueBase):
     @classmethod
     def _parse_basic_params(cls, attr_to_component_name_dict, attr_fields_dict, components, params):
         for name, attribute in attr_fields_dict.items():
+            matching_components = []
             for component in components:
                 try:
                     attr_to_component_name_dict[name]._check_name(component)  # pylint: disable=protected-access
                 except InvalidType:
                     pass
                 else:
-                    components[attr_to_component_name_dict[name].get_canonical_name()] = components.pop(component)
-                    break
+                    matching_components.append(component)
+
+            if matching_components:
+                canonical_name = attr_to_component_name_dict[name].get_canonical_name()
+                same_name_components = [
+                    matching_component for matching_component in matching_components
+                    if matching_component.lower() == canonical_name.lower()
+                ]
+                if len(same_name_components) > 1:
+                    # the same name in another letter case is the same component; as with equally spelled ones the last
+                    # one counts
+                    component = same_name_components[-1]
+                    component_value = components[component]
+                    for same_name_component in same_name_components:
+                        del components[same_name_component]
+                    components[canonical_name] = component_value
+                else:
+                    component = matching_components[0]
+                    components[canonical_name] = components.pop(component)
             else:
                 if attribute.default == attr.NOTHING:
                     raise InvalidValue(None, cls, name)
